@@ -91,14 +91,25 @@ class Path:
         self.out.put(p)
 
 
+def _cycle(l):
+    while True:
+        for x in l:
+            yield x
+
+
 class SenderRun:
     """a real TCPPacketGenerator under taps; `events` accumulates the protocol lines, `trace` the observations"""
 
-    def __init__(self, env, kind, cc, rtt_estimate, size, data_out):
+    def __init__(self, env, kind, cc, rtt_estimate, size, data_out, arrival=None, sizes=None):
         self.env = env
         self.kind = kind
         self.cc = cc
         self.flow = Flow(flow_id=0, src='s', dst='d', finish_time=INF, size=size)
+        if arrival:
+            # an application that writes at its own pace: inter-arrival times / write sizes cycle through the lists
+            ai, si = iter(_cycle(arrival)), iter(_cycle(sizes or [512]))
+            self.flow.arrival_dist = lambda: next(ai)
+            self.flow.size_dist = lambda: next(si)
         self.tx = TxTap(data_out)
         with quiet():
             self.sender = TCPPacketGenerator(env, self.flow, cc, rtt_estimate=rtt_estimate)
